@@ -251,7 +251,8 @@ pub fn main(o: &Opts) {
         attempts += 1;
         let mut qr = r.fork();
         let mut g = Gen::new(&mut qr, &cat, &gopts).generate(n);
-        if n % 3 == 2 && add_cte_subquery(&mut r, &mut g.q, n) { g.tags.push("f:cte_in_subquery".into()); }
+        // (not over the big multi-partition table: the engine re-runs an uncorrelated subquery for every batch it filters)
+        if n % 3 == 2 && cat.total_rows() <= 400 && add_cte_subquery(&mut r, &mut g.q, n) { g.tags.push("f:cte_in_subquery".into()); }
         let one = [cfgs[n % cfgs.len()].clone()];
         let mut case = make_case(&prop, &cat, &g.q, &g.tags, g.engine_defined, &one, false);
         let mut defs = Defs::new();
